@@ -470,7 +470,12 @@ def run_lua_cases(binary, cases, nproc=None, timeout_s=600, env=None, sub="lua-r
         while rest:
             guard += 1
             if guard > 50:
-                raise Infra("too many driver restarts")
+                # more than 50 hung / crashed cases in this part: that is a verdict (each of them is reported by the
+                # caller), not a machinery failure; the cases not reached are marked as such
+                for c in rest:
+                    res[c["id"]] = {"id": c["id"], "skipped": True, "timeout": True, "events": [],
+                                    "note": "not run: the driver had to be restarted more than 50 times before this case"}
+                break
             rc, outs, err = run_driver(binary, [sub], rest, timeout=timeout_s, env=env)
             got = set()
             for o in outs:
